@@ -17,6 +17,7 @@ import TdVerif.Lemmas.C08Perm
 import TdVerif.Lemmas.C08Cat
 import TdVerif.Lemmas.C08Stack
 import TdVerif.Lemmas.C08Two
+import TdVerif.Lemmas.C08CatN
 
 namespace TdVerif.Props.C08
 open TdVerif.C08
@@ -474,6 +475,24 @@ theorem cat_refines [Inhabited α] (L1 L2 : Lazy α) (b1 b2 : Shape) (keys : Lis
         absL L' ≈ TD.cat2 (absL L1) (absL L2) d) :=
   cat_refines2 L1 L2 b1 b2 keys feat hU1 hU2 hne1 hne2 hbl dim L' h
 
+/-- **`torch.cat([L1, …, Lk], dim)` (no `out=`) of ANY number of lazy stacks is the dense cat**
+(`Lazy.mb L` = the batch size of `L`'s members): along the common stack dim (operands with the
+same member batch size) the member lists are appended; along another dim (operands with the same
+member count whose member batch sizes agree off the shifted dim) the i-th members are concatenated
+along the shifted dim and re-stacked. -/
+theorem cat_refines_any_number [Inhabited α] (L0 : Lazy α) (rest : List (Lazy α)) (keys : List String)
+    (feat : String → Shape)
+    (hU : ∀ L ∈ L0 :: rest, Uniform L L.mb keys feat ∧ L.members ≠ [])
+    (dim : Int) (L' : Lazy α) (h : lazyCat (L0 :: rest) dim = some L') :
+    ∃ d : Nat, (d : Int) = (if dim < 0 then (L0.batch.length : Int) + dim else dim) ∧ d < L0.batch.length ∧
+      (∀ L ∈ L0 :: rest, L.sd = L0.sd) ∧
+      (d = L0.sd → (∀ L ∈ L0 :: rest, L.mb = L0.mb) → absL L' ≈ TD.catList ((L0 :: rest).map absL) d) ∧
+      (d ≠ L0.sd →
+        (∀ L ∈ L0 :: rest, L.members.length = L0.members.length ∧
+          L.mb = L0.mb.set (if d > L0.sd then d - 1 else d) (at0 L.mb (if d > L0.sd then d - 1 else d))) →
+        absL L' ≈ TD.catList ((L0 :: rest).map absL) d) :=
+  cat_refines_nary L0 rest keys feat hU dim L' h
+
 /-- **`torch.stack([L1, …, Lk], dim)` (no `out=`) of lazy stacks that share their stack dim is the
 dense stack**: the i-th members are densely stacked along the shifted `dim`, the results lazily
 stacked along the stack dim (shifted when the new dim lands at or before it).  Any number of
@@ -580,6 +599,11 @@ example : (match lazyGet exL [.ell, .int 0] with
 -- `_set_str` then `_get_str`
 example : (lazySetStr exL "a" (T.arange 100 [2, 3])).isSome = true := by decide
 example : lazySetStr exL "a" (T.arange 100 [2, 2]) = none → True := fun _ => trivial
+-- cat of three stacks: along the stack dim (9 members) and along dim 0 (3 members of batch [6])
+example : (match lazyCat [exL, exL, exL] 1 with
+    | some L' => (L'.sd, L'.members.length, (absL L').batch) | none => (99, 0, [])) = (1, 9, [2, 9]) := by decide
+example : (match lazyCat [exL, exL, exL] (-2) with
+    | some L' => (L'.sd, L'.members.length, (absL L').batch) | none => (99, 0, [])) = (1, 3, [6, 3]) := by decide
 -- stack of stacks: two copies of `exL` stacked at dim 0 (batch [2, 2, 3]); `lol[1, :, 2]` is
 -- `inner_1[:, 2]` = member 2 of the second inner stack
 def exL2 : Lazy2 Int := ⟨[exL, exL], 0⟩
